@@ -43,6 +43,11 @@ pub enum Op {
     /// `inner` to its own job through a clone of the handle (not awaiting the ticket: that would be a legitimate
     /// deadlock) and hands the ticket to `inner.waiters` waiter tasks. The inner control's id is `inner_id(own id)`.
     RunSend { async_ms: Option<u64>, inner: Box<Step> },
+    /// `job.control(Control::Delete)`: the bare variant behind delete() / delete_now(), sent by hand at normal priority
+    /// and without the Stop that those put in front: the job ends where it stands
+    RawDelete,
+    /// `job.control(Control::NextEnding)`: the variant behind to_wait(), sent by hand - at *normal* priority
+    RawNextEnding,
 }
 
 impl Op {
@@ -67,6 +72,8 @@ impl Op {
             Op::SetErr { .. } => "set_error_handler",
             Op::UnsetErr => "unset_error_handler",
             Op::RawContinue => "control(ContinueTryGracefulRestart)",
+            Op::RawDelete => "control(Delete)",
+            Op::RawNextEnding => "control(NextEnding)",
             Op::RunSend { async_ms: None, .. } => "run",
             Op::RunSend { .. } => "run_async",
         }
@@ -81,6 +88,14 @@ impl Op {
     }
     pub fn is_marker(&self) -> bool {
         matches!(self, Op::Run | Op::RunAsync { .. } | Op::RunStall { .. } | Op::RunSend { .. })
+    }
+    /// resolves at the next end of the process (at once if none is running)
+    pub fn waits_for_end(&self) -> bool {
+        matches!(self, Op::ToWait | Op::RawNextEnding)
+    }
+    /// tells the job to go
+    pub fn deletes(&self) -> bool {
+        matches!(self, Op::Delete | Op::DeleteNow | Op::RawDelete)
     }
     /// a marker whose control is complete as soon as the closure has been called (no future to await)
     pub fn sync_marker(&self) -> bool {
@@ -237,6 +252,8 @@ pub fn issue(job: &Job, op: &Op, id: u32, jobno: u8) -> Ticket {
         Op::Restart => job.restart(),
         Op::TryRestart => job.try_restart(),
         Op::RawContinue => job.control(watchexec_supervisor::job::Control::ContinueTryGracefulRestart),
+        Op::RawDelete => job.control(watchexec_supervisor::job::Control::Delete),
+        Op::RawNextEnding => job.control(watchexec_supervisor::job::Control::NextEnding),
         Op::StopSig { sig, grace } => job.stop_with_signal(sig_of(*sig), g(*grace)),
         Op::RestartSig { sig, grace } => job.restart_with_signal(sig_of(*sig), g(*grace)),
         Op::TryRestartSig { sig, grace } => job.try_restart_with_signal(sig_of(*sig), g(*grace)),
@@ -536,8 +553,20 @@ pub fn random_op(rng: &mut Rng, sigs: &mut SigAlloc, weights: &OpWeights) -> Op 
         5 => Op::RestartSig { sig: sigs.fresh(), grace },
         6 => Op::TryRestartSig { sig: sigs.fresh(), grace },
         7 => Op::Signal { sig: if rng.chance(1, 5) { 9 } else { sigs.fresh() } },
-        8 => Op::ToWait,
-        9 => Op::Delete,
+        8 => {
+            if rng.chance(1, 8) {
+                Op::RawNextEnding
+            } else {
+                Op::ToWait
+            }
+        }
+        9 => {
+            if rng.chance(1, 5) {
+                Op::RawDelete
+            } else {
+                Op::Delete
+            }
+        }
         10 => Op::DeleteNow,
         11 => {
             if weights.1 && rng.chance(1, 6) {
